@@ -62,6 +62,10 @@ pub struct C03Case {
     pub writers: Vec<(u16, Vec<(u8, bool, u16)>)>,
     pub pace_us: u16,
     pub rules: Vec<SRule>,
+    /// every k-th pre-existing frame carries `time:1` and has expired (uncollected) when the
+    /// read begins: the replay has to pass over it
+    #[serde(default)]
+    pub expired_every: u8,
 }
 
 pub fn strategy() -> BoxedStrategy<C03Case> {
@@ -97,8 +101,9 @@ pub fn strategy() -> BoxedStrategy<C03Case> {
                 }),
             0..=4,
         ),
+        prop_oneof![3 => Just(0u8), 1 => 2u8..40],
     )
-        .prop_map(|(pre, pre_removed, start, ctx, writers, pace_us, rules)| C03Case {
+        .prop_map(|(pre, pre_removed, start, ctx, writers, pace_us, rules, expired_every)| C03Case {
             pre,
             pre_removed,
             start,
@@ -106,6 +111,7 @@ pub fn strategy() -> BoxedStrategy<C03Case> {
             writers,
             pace_us,
             rules,
+            expired_every,
         })
         .boxed()
 }
@@ -130,6 +136,10 @@ pub struct Prepared {
 /// Registers two contexts and builds the pre-history round-robin over the three
 /// contexts, removing the first `pre_removed` frames of it again.
 pub fn prepare(exec: &mut Exec, pre: u16, pre_removed: u8) -> Result<Prepared, Fail> {
+    prepare_with(exec, pre, pre_removed, 0)
+}
+
+pub fn prepare_with(exec: &mut Exec, pre: u16, pre_removed: u8, expired_every: u8) -> Result<Prepared, Fail> {
     let mut ctxs = vec![ZERO];
     let mut frames = Vec::new();
     for _ in 0..2 {
@@ -138,13 +148,24 @@ pub fn prepare(exec: &mut Exec, pre: u16, pre_removed: u8) -> Result<Prepared, F
         // the registrations are part of the zero context's history
         frames.push(reg);
     }
+    let mut removed = Vec::new();
     for i in 0..pre {
+        if expired_every > 0 && i % expired_every as u16 == expired_every as u16 - 1 {
+            // gone for every reader by the time the read begins, but still on disk
+            removed.push(must(
+                "pre-history (expiring)",
+                exec.append(&spec("e", ctxs[i as usize % 3], Some(WTtl::Time(1))), None),
+            )?);
+            continue;
+        }
         frames.push(must(
             "pre-history",
             exec.append(&spec(if i % 2 == 0 { "h" } else { "g" }, ctxs[i as usize % 3], None), None),
         )?);
     }
-    let mut removed = Vec::new();
+    if expired_every > 0 {
+        std::thread::sleep(std::time::Duration::from_millis(4));
+    }
     for _ in 0..pre_removed {
         if frames.len() > 3 {
             // remove from the middle (never a registration) so that a last-id on a removed
@@ -191,7 +212,7 @@ pub fn run_case(case: &C03Case) -> Result<CaseInfo, Fail> {
 }
 
 fn run_in(case: &C03Case, exec: &mut Exec) -> Result<CaseInfo, Fail> {
-    let p = prepare(exec, case.pre, case.pre_removed)?;
+    let p = prepare_with(exec, case.pre, case.pre_removed, case.expired_every)?;
     let scope = case.ctx.map(|c| p.ctxs[c as usize % 3]);
     let (tail, last_id) = match &case.start {
         Start::Beginning => (false, None),
@@ -436,6 +457,7 @@ fn evaluate(case: &C03Case, p: &Prepared, opts: &ROpts, res: &ScenarioResult) ->
     for (on, name) in [
         (case.pre > 100, "history-longer-than-delivery-buffer"),
         (case.pre == 0, "empty-history"),
+        (case.expired_every > 0 && case.pre >= case.expired_every as u16, "expired-uncollected-frames-in-history"),
         (opts.tail, "tail"),
         (opts.last_id.is_some(), "last-id"),
         (opts.ctx.is_some(), "context-scoped"),
